@@ -1,2 +1,174 @@
-(* C11 -- statements only. *)
-From UP Require Import Base.Chars Model.Uri.
+(* C11 — URI equality means component-wise identity.
+
+   "Two URIs compare equal exactly when all their components are identical: scheme, user info,
+   host (IP addresses by value), port, absolute-path flag, the sequence of path segments, query
+   and fragment, with an absent component never equal to an empty one.  For URIs produced by
+   this library that is the case exactly when their recomposed texts are identical; the relation
+   is reflexive, symmetric and transitive, two NULL arguments are equal, and comparing modifies
+   neither argument."
+
+   [equals_uri] (Model/Compare.v) is uriEqualsUri, [compare_range]/[strncmp] (Model/Common.v) are
+   uriCompareRange and strncmp/wcsncmp; [components_identical], [nul_free], [uri_nul_free] are in
+   Spec/Identity.v; [to_text] (Model/Recompose.v) is the text written by uriToString.
+
+   Hypotheses.
+   * [uri_nul_free]: no component text contains the code point 0.  The proofs force it: the
+     comparison is made with strncmp/wcsncmp, which stop at a NUL, so a range is seen only through
+     its length and its part before the first NUL ([C11_nul_free_needed] below is a pair that
+     compares equal with different schemes).  Every text put into a URI by the parser is a piece of
+     a NUL-terminated string (or of a [first, afterLast) range the caller vouches for), so for
+     library-produced URIs it holds; that is a parser fact and is not proved here.  One NUL-free
+     side is enough ([C11_equal_iff_identical_one_side]).
+   * Nothing about the size of the IP data: [bytes_eqb] is list equality.
+   * Lengths are unbounded here; the C code casts the two lengths to int before subtracting, so
+     texts longer than INT_MAX are outside the model (DESIGN.md, Appendix B).
+   * Reflexivity, symmetry, transitivity, the NULL cases and "identical => equal" need no
+     hypothesis at all and are stated for all values.
+   * [C11_text_of_identical] needs no hypothesis on the host text: uriToString prints an IPv4 /
+     IPv6 host from the bytes and an IPvFuture host from hostData.ipFuture, never from hostText.
+
+   Purity ("comparing modifies neither argument"): [equals_uri] is a function from two values to a
+   bool, so in the model there is nothing to state; on the implementation it is observed by the
+   harness (both arguments are const-qualified in C and their bytes are compared before/after).
+
+   Not stated here: "for library-produced URIs, same recomposed text => equal".  It needs
+   (i) a predicate for the URI values the library can produce (parser results and results of the
+   resolve/normalize operations), with [uri_nul_free] and "IP data agrees with the host text" as
+   consequences, and (ii) injectivity of [to_text] on that set up to [components_identical], which
+   follows from the parser theorems (parse (to_text u) gives back the components of u: C02/C04
+   round trip).  For values outside the parser's range the implication is false — see
+   [C11_same_text_unequal] (finding D6: a URI built by uriAddBaseUri with text "s:/b" that is not
+   equal to the parsed "s:/b"). *)
+From Coq Require Import ZArith List Bool.
+From UP Require Import Base.Chars Model.Uri Model.Common Model.Compare Model.Recompose
+  Spec.Identity Proofs.CompareProofs.
+Import ListNotations.
+Local Open Scope N_scope.
+
+(* ---- ranges: an absent component is equal to an absent one only; present NUL-free texts are
+        equal exactly when they are the same text *)
+Theorem C11_range_absent :
+  range_eqb None None = true
+  /\ forall x, range_eqb None (Some x) = false /\ range_eqb (Some x) None = false.
+Proof. exact range_eqb_absent. Qed.
+Print Assumptions C11_range_absent.
+
+Theorem C11_range_eq_iff : forall x y, nul_free x -> nul_free y ->
+  (range_eqb (Some x) (Some y) = true <-> x = y).
+Proof. exact range_eqb_some_iff. Qed.
+Print Assumptions C11_range_eq_iff.
+
+(* ---- equal exactly when all components are identical *)
+Theorem C11_equal_iff_identical : forall a b, uri_nul_free a -> uri_nul_free b ->
+  (equals_uri (Some a) (Some b) = true <-> components_identical a b).
+Proof. exact equal_iff_identical. Qed.
+Print Assumptions C11_equal_iff_identical.
+
+(* the same with the hypothesis on one argument only *)
+Theorem C11_equal_iff_identical_one_side : forall a b, uri_nul_free a \/ uri_nul_free b ->
+  (equals_uri (Some a) (Some b) = true <-> components_identical a b).
+Proof. exact equal_iff_identical_either. Qed.
+Print Assumptions C11_equal_iff_identical_one_side.
+
+(* identical components always compare equal *)
+Theorem C11_identical_implies_equal : forall a b,
+  components_identical a b -> equals_uri (Some a) (Some b) = true.
+Proof. exact identical_equals. Qed.
+Print Assumptions C11_identical_implies_equal.
+
+(* ---- NULL arguments *)
+Theorem C11_null :
+  equals_uri None None = true
+  /\ forall a, equals_uri None (Some a) = false /\ equals_uri (Some a) None = false.
+Proof. exact equals_uri_null. Qed.
+Print Assumptions C11_null.
+
+(* ---- an equivalence relation, on all arguments (NULL or not, NUL-free or not) *)
+Theorem C11_reflexive : forall a : option uri, equals_uri a a = true.
+Proof. exact equals_uri_refl. Qed.
+Print Assumptions C11_reflexive.
+
+Theorem C11_symmetric : forall a b : option uri, equals_uri a b = equals_uri b a.
+Proof. exact equals_uri_sym. Qed.
+Print Assumptions C11_symmetric.
+
+Theorem C11_transitive : forall a b c : option uri,
+  equals_uri a b = true -> equals_uri b c = true -> equals_uri a c = true.
+Proof. exact equals_uri_trans. Qed.
+Print Assumptions C11_transitive.
+
+(* ---- identical components recompose to the same text; hence equal => same text *)
+Theorem C11_text_of_identical : forall a b, components_identical a b -> to_text a = to_text b.
+Proof. exact identical_to_text. Qed.
+Print Assumptions C11_text_of_identical.
+
+Theorem C11_text_of_equal : forall a b, uri_nul_free a -> uri_nul_free b ->
+  equals_uri (Some a) (Some b) = true -> to_text a = to_text b.
+Proof. exact equal_to_text. Qed.
+Print Assumptions C11_text_of_equal.
+
+(* ---- non-vacuity *)
+
+(* "s:a" and "s:a?": absent query against empty query *)
+Example C11_absent_vs_empty :
+  let a := mkUri (Some [115]) None None None None None None [[97]] None None false false in
+  let b := mkUri (Some [115]) None None None None None None [[97]] (Some []) None false false in
+  uri_nul_free a /\ uri_nul_free b
+  /\ equals_uri (Some a) (Some b) = false /\ ~ components_identical a b
+  /\ to_text a = [115; 58; 97] /\ to_text b = [115; 58; 97; 63].
+Proof.
+  cbv zeta. repeat split; try (apply uri_nul_freeb_sound; reflexivity); try reflexivity.
+  intros H. pose proof (ci_query _ _ H) as Q. discriminate Q.
+Qed.
+
+(* "s:/a" and "s:a" differ only in the absolute-path flag.  The original code compared the flag
+   only when there was no scheme and reported these two equal (finding D1, repaired in /repo
+   commit 0022ce9); the model follows the repaired code. *)
+Example C11_absolute_path_flag :
+  let a := mkUri (Some [115]) None None None None None None [[97]] None None true false in
+  let b := mkUri (Some [115]) None None None None None None [[97]] None None false false in
+  uri_nul_free a /\ uri_nul_free b
+  /\ equals_uri (Some a) (Some b) = false /\ ~ components_identical a b
+  /\ to_text a = [115; 58; 47; 97] /\ to_text b = [115; 58; 97].
+Proof.
+  cbv zeta. repeat split; try (apply uri_nul_freeb_sound; reflexivity); try reflexivity.
+  intros H. pose proof (ci_absolutePath _ _ H) as Q. discriminate Q.
+Qed.
+
+(* "s://[::1]" and "s://[0:0:0:0:0:0:0:1]", one owning its memory and one not: different host
+   texts, same address; equal, identical components, same recomposed text *)
+Example C11_equal_pair :
+  let one := [0; 0; 0; 0; 0; 0; 0; 0; 0; 0; 0; 0; 0; 0; 0; 1] in
+  let a := mkUri (Some [115]) None (Some [58; 58; 49]) None (Some one) None None [] None None false true in
+  let b := mkUri (Some [115]) None (Some [48; 58; 48; 58; 48; 58; 48; 58; 48; 58; 48; 58; 48; 58; 49])
+                 None (Some one) None None [] None None false false in
+  uri_nul_free a /\ uri_nul_free b /\ hostText a <> hostText b /\ owner a <> owner b
+  /\ equals_uri (Some a) (Some b) = true /\ components_identical a b
+  /\ to_text a = to_text b.
+Proof.
+  cbv zeta. repeat split; try (apply uri_nul_freeb_sound; reflexivity); try reflexivity;
+    try (intros H; discriminate H).
+Qed.
+
+(* the NUL-freeness hypothesis cannot be dropped: strncmp stops at the NUL *)
+Example C11_nul_free_needed :
+  let a := mkUri (Some [0; 1]) None None None None None None [] None None false false in
+  let b := mkUri (Some [0; 2]) None None None None None None [] None None false false in
+  equals_uri (Some a) (Some b) = true /\ ~ components_identical a b.
+Proof.
+  cbv zeta. split; [reflexivity|].
+  intros H. pose proof (ci_scheme _ _ H) as Q. discriminate Q.
+Qed.
+
+(* "same text => equal" does not hold for arbitrary values: the result of
+   uriAddBaseUri("s:a", ".//b") (rootless, segments "" and "b") and the parsed "s:/b" (absolute,
+   segment "b") have the same text and are not equal (finding D6) *)
+Example C11_same_text_unequal :
+  let a := mkUri (Some [115]) None None None None None None [[]; [98]] None None false true in
+  let b := mkUri (Some [115]) None None None None None None [[98]] None None true false in
+  uri_nul_free a /\ uri_nul_free b
+  /\ to_text a = [115; 58; 47; 98] /\ to_text b = [115; 58; 47; 98]
+  /\ equals_uri (Some a) (Some b) = false.
+Proof.
+  cbv zeta. repeat split; try (apply uri_nul_freeb_sound; reflexivity); reflexivity.
+Qed.
